@@ -547,3 +547,35 @@ Proof. exact raw_byte_not_preserved. Qed.
 Example C02_ex_quote_split_sequence :
   Quote.quote frag_is_print ([xc3] ++ [xa9]) = [xc3; xa9] /\ Quote.quote frag_is_print [xc3] ++ Quote.quote frag_is_print [xa9] = bs "\xc3\xa9".
 Proof. exact quote_split_sequence. Qed.
+
+From V Require Import spec.SrcText model.SrcTextParse proofs.SrcTextProof.
+
+(* ---- from the SOURCE BYTES: a one-line run of static text in an element (spec/SrcText.v, model/SrcTextParse.v) ----
+   Every statement above starts from the tree the parser built.  This layer starts from the bytes of the file, on the fragment
+   [in_frag] (content T of `<p>T</p>`: no markup / templ syntax / line terminator, goes on after its leading white space with an
+   upper-case letter, a digit or a byte above 0x7f, holds a visible ASCII character).  [doc_spec]: the leading run of ASCII white
+   space is dropped, every other byte of the source stands in the document as it is.  [doc_code]: what parser/v2 +
+   generator do (whitespaceExpression's run is decided by a-h/parse byte by byte with rune(byte): 09..0D, 20, 85, A0).
+   The harness (family "source text") compares the compiled render of every generated T with [doc_code] (correspondence) and with
+   [doc_spec] (property).  The full statement "doc_code T = doc_spec T on the fragment" is FALSE of the faithful model: *)
+Theorem C02_source_text_rendered_as_written_refuted :
+  exists T : bytes, in_frag T = true /\ doc_code T <> doc_spec T.
+Proof.
+  exists SrcTextProof.wit. split; [exact (proj1 srctext_refuted)|].
+  destruct srctext_refuted as [_ [Hs Hc]]. rewrite Hs, Hc. intros E. vm_compute in E. discriminate.
+Qed.
+Print Assumptions C02_source_text_rendered_as_written_refuted.
+
+(* ... and true exactly where the first byte that is not ASCII white space is neither 85 nor A0 (a necessary AND sufficient
+   guard: every other T of the fragment renders its source bytes; every T that fails it renders another document) *)
+Theorem C02_source_text_rendered_as_written_partial : forall T : bytes, in_frag T = true ->
+  (doc_code T = doc_spec T <-> no_byte_space_lead T = true).
+Proof. exact doc_exact. Qed.
+Print Assumptions C02_source_text_rendered_as_written_partial.
+
+Example C02_ex_source_text_witness :
+  in_frag SrcTextProof.wit = true /\ doc_spec SrcTextProof.wit = bs "<p>" ++ [x85] ++ bs "And so on</p>" /\ doc_code SrcTextProof.wit = bs "<p>And so on</p>".
+Proof. exact srctext_refuted. Qed.
+Example C02_ex_source_text_nonvacuous : let T := bs "  " ++ [xc9] ++ bs "t" ++ [xe9; x85; xa0] ++ bs " 2024 " in
+  in_frag T = true /\ no_byte_space_lead T = true /\ doc_code T = bs "<p>" ++ [xc9] ++ bs "t" ++ [xe9; x85; xa0] ++ bs " 2024 </p>".
+Proof. exact srctext_nonvacuous. Qed.
